@@ -1,5 +1,6 @@
 import Csverif.Driver.Path
 import Csverif.Driver.Storage
+import Csverif.Driver.Runnable
 /- Driver: `driver <layer>` reads one operation per line on stdin and prints one canonical
    line per operation.  It executes the very definitions the theorems are about. -/
 open CS
@@ -25,4 +26,8 @@ def main (args : List String) : IO UInt32 := do
   | ["path"] => loopStateless stdin stdout Driver.Path.step; stdout.flush; return 0
   | ["sqlite"] => loopState stdin stdout ([] : Storage.Sqlite.Table String) Driver.Storage.stepSqliteR; stdout.flush; return 0
   | ["mockstorage"] => loopState stdin stdout ({ rows := [], cursor := 0 } : Storage.Mock.St String) Driver.Storage.stepMock; stdout.flush; return 0
+  | ["runseq"] => loopStateless stdin stdout Driver.Runnable.stepRunSeq; stdout.flush; return 0
+  | ["notify"] => loopStateless stdin stdout Driver.Runnable.stepNotify; stdout.flush; return 0
+  | ["proto"] => loopState stdin stdout Driver.Runnable.pInit Driver.Runnable.stepProto; stdout.flush; return 0
+  | ["reach"] => IO.println (toString Runnable.reachableCodes); return 0
   | _ => IO.eprintln "usage: driver <layer>"; return 2
